@@ -39,7 +39,11 @@ impl ProcessRegistry {
     }
 
     pub async fn remove(&self, pid: &ExternalPid) -> Option<ProcessHandle> {
-        self.by_pid.write().await.remove(pid)
+        let removed = self.by_pid.write().await.remove(pid);
+        // names registered for the process go with it, so that they stop resolving
+        // and can be registered again
+        self.by_name.write().await.retain(|_, p| p != pid);
+        removed
     }
 
     pub async fn get(&self, pid: &ExternalPid) -> Option<ProcessHandle> {
